@@ -1,5 +1,16 @@
 // Emits the generated half of the request alphabet with the generator of the tree under test.
+use std::io::Write;
+
+/// A definition whose text is hostile to any "normalising" step between the .varlink file and
+/// the description a generated interface reports (C03: verbatim): CRLF / CR / U+2028 line ends,
+/// tabs, trailing blanks, quotes, backslashes, non-ASCII, and a bare CR as the last byte.
+pub const FMT_TEXT: &str = "# fmt: \"quoted\" \\back\\slash\\n r#\"raw\"# {brace} \u{e9}\u{4e16}\u{1f600}\t tab  \r\n#\ttrailing blanks   \r\ninterface org.verif.fmt\r\n\r\n\r\n# CR-only line end follows\rtype T (a: int,\tb: ?string)   \r\n\u{2028}# after U+2028\nmethod  Get( t : T )->( t:T )\r\n\r\nerror Bad ()\r\n#trailing comment, bare CR at end of text\r";
+
 fn main() {
     varlink_generator::cargo_build("idl/org.verif.gen.varlink");
+    let out = std::env::var("OUT_DIR").unwrap();
+    let p = format!("{}/org.verif.fmt.varlink", out);
+    std::fs::File::create(&p).unwrap().write_all(FMT_TEXT.as_bytes()).unwrap();
+    varlink_generator::cargo_build(&p);
     println!("cargo:rerun-if-changed=build.rs");
 }
